@@ -126,8 +126,40 @@ def g_tensorproto(x: FLOAT[2]) -> FLOAT[2]:
 
 def g_list(x: FLOAT[2]) -> FLOAT:
     return op.Unsqueeze(x, LST)
+
+# numpy constants that are read-only when the decorator runs but whose data can still change afterwards
+_BASE = np.array([7.0, 8.0], dtype=np.float32)
+ROV = _BASE.view()
+ROV.flags.writeable = False
+_BASE1 = np.array([9.0], dtype=np.float32)
+BC = np.broadcast_to(_BASE1, (2,))
+FRZ = np.array([3.0, 4.0], dtype=np.float32)
+FRZ.setflags(write=False)
+_BUF = bytearray(np.array([11.0, 12.0], dtype=np.float32).tobytes())
+FB = np.frombuffer(_BUF, dtype=np.float32)
+FB.flags.writeable = False
+ARR0 = np.array(2.5, dtype=np.float32)
+ARRI = np.array([1, 0], dtype=np.int64)
+
+def g_roview(x: FLOAT[2]) -> FLOAT[2]:
+    return op.Add(x, ROV)
+
+def g_bcast(x: FLOAT[2]) -> FLOAT[2]:
+    return op.Mul(x, BC)
+
+def g_frozen(x: FLOAT[2]) -> FLOAT[2]:
+    return op.Sub(x, FRZ)
+
+def g_frombuffer(x: FLOAT[2]) -> FLOAT[2]:
+    return op.Add(x, FB)
+
+def g_scalar0d(x: FLOAT[2]) -> FLOAT[2]:
+    return op.Mul(x, ARR0)
+
+def g_intarray(x: FLOAT[2]) -> FLOAT[2]:
+    return op.Gather(x, ARRI)
 '''
-G_KINDS = ["rebind", "ndarray", "tensorproto", "list"]
+G_KINDS = ["rebind", "ndarray", "tensorproto", "list", "roview", "bcast", "frozen", "frombuffer", "scalar0d", "intarray"]
 
 P_SRC = _HDR18 + '''
 def persist(x: FLOAT[4]) -> FLOAT[4]:
@@ -720,6 +752,14 @@ def ev_glob_mut():
     _gmod.ARR[0] = 100.0
     _gmod.TP.raw_data = np.array([50.0, 60.0], dtype=np.float32).tobytes()
     _gmod.LST[0] = 1
+    # read-only constants: change the data through the base array / the buffer / after thawing
+    _gmod._BASE[0] = 700.0
+    _gmod._BASE1[0] = 900.0
+    _gmod.FRZ.setflags(write=True)
+    _gmod.FRZ[0] = 300.0
+    _gmod._BUF[0:4] = np.array([1100.0], dtype=np.float32).tobytes()
+    _gmod.ARR0[...] = 250.0
+    _gmod.ARRI[0] = 0
     return {}
 
 
@@ -868,6 +908,7 @@ def canonical_state():
     st["conv_pass"] = {k: _canon(v) for k, v in vars(CONVPASS).items()}
     st["default_rules_n"] = len(onnxscript.rewriter._DEFAULT_REWRITE_RULES)
     # 6. script-time constants' sources and the persistent functions
+    st["globals2"] = {n: _canon(getattr(_gmod, n)) for n in ("ROV", "BC", "FRZ", "FB", "ARR0", "ARRI")}
     st["globals"] = {"K": _canon(_gmod.K), "ARR": _canon(_gmod.ARR), "LST": _canon(_gmod.LST),
                      "TP": hashlib.sha256(_gmod.TP.SerializeToString()).hexdigest()[:16]}
     st["persist_ir"] = _fn_digest(F_PERSIST)[:16]
